@@ -1359,17 +1359,26 @@ func (f *formatter) ExprPropertyFetch(n *ast.ExprPropertyFetch) {
 	n.Var.Accept(f)
 	n.ObjectOperatorTkn = f.newToken(token.T_OBJECT_OPERATOR, []byte("->"))
 
+	hadBrackets := n.OpenCurlyBracketTkn != nil
 	n.OpenCurlyBracketTkn = nil
 	n.CloseCurlyBracketTkn = nil
 	switch n.Prop.(type) {
 	case *ast.Identifier:
 	case *ast.ExprVariable:
+		// "$a->{$b}[0]" and "$a->$b[0]" group differently before PHP 7:
+		// brackets written around a variable name are kept
+		if hadBrackets {
+			n.OpenCurlyBracketTkn = f.newToken('{', []byte("{"))
+		}
 	default:
 		n.OpenCurlyBracketTkn = f.newToken('{', []byte("{"))
-		n.CloseCurlyBracketTkn = f.newToken('}', []byte("}"))
 	}
 
 	n.Prop.Accept(f)
+
+	if n.OpenCurlyBracketTkn != nil {
+		n.CloseCurlyBracketTkn = f.newToken('}', []byte("}"))
+	}
 }
 
 func (f *formatter) ExprRequire(n *ast.ExprRequire) {
